@@ -142,6 +142,13 @@ func (P *Prog) successReturns(fn *ssa.Function, idx int, want string) []*ssa.Ret
 func (r *Run) oneCall(rule, key string, fn *ssa.Function, suffix string) ssa.CallInstruction {
 	cs := CallsIn(fn, suffix)
 	if len(cs) == 0 {
+		for _, g := range r.P.newlyCalled(fn) {
+			if gs := CallsIn(g, suffix); len(gs) > 0 {
+				return gs[0] // the call moved into a function of the pinned tree that fn newly calls
+			}
+		}
+	}
+	if len(cs) == 0 {
 		r.Viol(rule, key+"/calls:"+suffix, r.P.Pos(fn.Pos()), short(fn.String())+" no longer calls "+suffix+" (required by the rule)")
 		return nil
 	}
